@@ -30,7 +30,7 @@ pub struct Case {
 }
 
 pub const MAKE: [&str; 12] = ["make:client-credprops", "make:client-credprops-prf", "make:plain", "make:exclude-hit", "make:exclude-miss", "make:non-rk", "make:prf", "make:counter", "make:prf-uv-only-unverified", "make:bad-alg", "make:pin-auth", "make:uv-unconfigured"];
-pub const GET: [&str; 15] = ["get:two-listed-first-fails-late", "get:two-listed-first-fails-late-reversed", "get:counter-max", "get:counter-max-prf-no-secret", "get:client-prf", "get:allow", "get:no-list", "get:prf", "get:counterless", "get:prf-no-secret", "get:prf-uv-only-unverified", "get:pin-auth", "get:two-listed", "get:silent", "get:silent-prf"];
+pub const GET: [&str; 17] = ["get:prf-cross-config", "get:prf-cross-config-counterless", "get:two-listed-first-fails-late", "get:two-listed-first-fails-late-reversed", "get:counter-max", "get:counter-max-prf-no-secret", "get:client-prf", "get:allow", "get:no-list", "get:prf", "get:counterless", "get:prf-no-secret", "get:prf-uv-only-unverified", "get:pin-auth", "get:two-listed", "get:silent", "get:silent-prf"];
 /// status bytes a faulting store answers with: success-looking, CTAP1, store-full, no-credentials,
 /// "other", vendor – and every status the library raises itself (a caller that reacts to a status
 /// cannot tell who raised it)
@@ -75,7 +75,15 @@ where
     if silent {
         uv.outcome = UvOutcome::Ok { presence: false, verification: false };
     }
-    let ask_uv = !uv_only && !silent;
+    if request.starts_with("get:prf-cross-config") {
+        // present, not verified
+        uv.outcome = UvOutcome::Ok { presence: true, verification: false };
+    }
+    // a credential that carries only the verification-gated secret (made under a UV-only
+    // configuration) asserted without verification on an authenticator configured with the non-gated
+    // secret: whatever the PRF step answers, an assertion writes the counter and nothing else
+    let cross = request.starts_with("get:prf-cross-config");
+    let ask_uv = !uv_only && !silent && !cross;
     let mut auth = mk_auth(store, uv, &cfg);
     let prf = || AuthenticatorPrfInputs { eval: Some(AuthenticatorPrfValues { first: [1; 32], second: None }), eval_by_credential: None };
     if request.contains(":client-") {
@@ -151,7 +159,7 @@ where
         let (allow, ext) = match request.as_str() {
             "get:allow" | "get:counter-max" => (Some(vec![cred_id(1)]), None),
             "get:counter-max-prf-no-secret" => (Some(vec![cred_id(1)]), Some(get_assertion::ExtensionInputs { hmac_secret: None, prf: Some(prf()) })),
-            "get:prf" => (Some(vec![cred_id(1)]), Some(get_assertion::ExtensionInputs { hmac_secret: None, prf: Some(prf()) })),
+            "get:prf" | "get:prf-cross-config" | "get:prf-cross-config-counterless" => (Some(vec![cred_id(1)]), Some(get_assertion::ExtensionInputs { hmac_secret: None, prf: Some(prf()) })),
             "get:counterless" => (Some(vec![cred_id(2)]), None),
             // counter is advanced, then the PRF step fails because the credential has no secret
             "get:prf-no-secret" => (Some(vec![vec![0xEE; 16], cred_id(1)]), Some(get_assertion::ExtensionInputs { hmac_secret: None, prf: Some(prf()) })),
@@ -185,6 +193,9 @@ fn observe(c: &Case) -> Obs {
     if c.request.starts_with("get:two-listed-first-fails-late") {
         seeds.push(seeded(&Seed { n: 4, rp: RP.into(), handle: Some(vec![4]), counter: Some(20), hmac: None }));
         seeds.push(seeded(&Seed { n: 5, rp: RP.into(), handle: Some(vec![5]), counter: Some(30), hmac: Some(true) }));
+    }
+    if c.request.starts_with("get:prf-cross-config") {
+        seeds[0] = seeded(&Seed { n: 1, rp: RP.into(), handle: Some(vec![1]), counter: if c.request.ends_with("counterless") { None } else { Some(10) }, hmac: Some(false) });
     }
     if c.request == "get:prf-no-secret" {
         // credential 1 without PRF secrets
@@ -519,7 +530,7 @@ pub fn run(ctx: &Ctx) -> Result<Run, String> {
     }
     let mut run = Run::from_stats(
         "fault_enumeration",
-        "requests {make through the client with credProps (and prf), make through the client with every attestation preference (4) x attestationFormats shape (absent, empty, [packed], [none], [packed, none], [tpm, apple]), get through the client with prf; make: plain, exclude-list hit, exclude-list miss, non-rk, PRF, counter, PRF evaluation that fails late (verification-gated secrets, unverified ceremony), unsupported algorithm, pin-auth, verification unconfigured; get: allow list, no list, PRF, counter-less, PRF on a credential without secret, PRF that fails late, stored counter at 2^32-1 (with and without a late failure), pin-auth, two listed credentials, two listed credentials with counters of which the first fails after its counter write (both list orders), silent (up = uv = false, nothing reported) with and without PRF} x store stack {contract store, behind Arc<Mutex>, behind Arc<RwLock>} x fault plans over the faultable store calls (every single call x 6 status codes, every subset of >= 2 calls with KeyStoreFull; thorough: subsets x 6 codes and single faults x all 256 bytes) x cancellation after every k < polls-to-completion (every store call and the user step suspend once); plus U2F registrations with a fresh key handle and with a key handle that is already the id of another relying party's credential, on Arc<Mutex<MemoryStore>> (an error leaves the store as it was; success leaves exactly one record under that id, bound to the application); plus cancellation-only runs on Arc<Mutex<MemoryStore>> and on an occupied Arc<RwLock<Option<Passkey>>> (assertions, and registrations - plain, with counter, with PRF, through the client - after which the slot holds the new credential and nothing else). Oracle: store snapshot before/after against a model that applies only the calls that returned Ok, call log, result. Every (request, store, plan, cancellation point) is a distinct case",
+        "requests {make through the client with credProps (and prf), make through the client with every attestation preference (4) x attestationFormats shape (absent, empty, [packed], [none], [packed, none], [tpm, apple]), get through the client with prf; make: plain, exclude-list hit, exclude-list miss, non-rk, PRF, counter, PRF evaluation that fails late (verification-gated secrets, unverified ceremony), unsupported algorithm, pin-auth, verification unconfigured; get: allow list, no list, PRF, counter-less, PRF on a credential without secret, PRF without verification on a credential that carries only the gated secret under a configuration with the non-gated one (with and without counter), PRF that fails late, stored counter at 2^32-1 (with and without a late failure), pin-auth, two listed credentials, two listed credentials with counters of which the first fails after its counter write (both list orders), silent (up = uv = false, nothing reported) with and without PRF} x store stack {contract store, behind Arc<Mutex>, behind Arc<RwLock>} x fault plans over the faultable store calls (every single call x 6 status codes, every subset of >= 2 calls with KeyStoreFull; thorough: subsets x 6 codes and single faults x all 256 bytes) x cancellation after every k < polls-to-completion (every store call and the user step suspend once); plus U2F registrations with a fresh key handle and with a key handle that is already the id of another relying party's credential, on Arc<Mutex<MemoryStore>> (an error leaves the store as it was; success leaves exactly one record under that id, bound to the application); plus cancellation-only runs on Arc<Mutex<MemoryStore>> and on an occupied Arc<RwLock<Option<Passkey>>> (assertions, and registrations - plain, with counter, with PRF, through the client - after which the slot holds the new credential and nothing else). Oracle: store snapshot before/after against a model that applies only the calls that returned Ok, call log, result. Every (request, store, plan, cancellation point) is a distinct case",
         true,
         stats,
     );
